@@ -20,7 +20,9 @@ from ..runner import Check
 from . import c04
 
 P = 'C02'
-NAMES = ['a', 'b', 'c', 'd', 'e', 'f', 'A1', 'Zz', 'm_2', 'x9', 'B', 'n10', 'n2', 'S', 'mu', 'tau']
+# many names differ only in case (or sort differently as text and as numbers): the execution order of the stochastic nodes
+# must be a function of the names alone, never of the insertion order
+NAMES = ['a', 'A', 'b', 'B', 'c', 'C', 'mu', 'MU', 'Mu', 'Zz', 'zz', 'A1', 'a1', 'm_2', 'x9', 'n10', 'n2', 'S', 's', 'tau']
 
 _POOL = {}
 
